@@ -145,12 +145,19 @@ func (pq *KeyGroupPriorityQueue) Pop() ([]byte, bool) {
 
 func (pq *KeyGroupPriorityQueue) Push(data []byte) {
 	pq.loadFromDB()
-	pq.cache.Push(data)
 
-	// If pushing the item exceeded the cache capacity, evict items until we're back under the limit
-	for pq.cache.IsFull() && !pq.cache.IsEmpty() {
-		pq.cache.PopLast()
-		pq.allDataInCache = false // evicted item is now only in the DB
+	// The cache holds the smallest items. While some items are only in the DB, an
+	// item that sorts after everything in the cache has to stay out of it,
+	// otherwise it would be returned ahead of the uncached items that precede it.
+	last, hasLast := pq.cache.PeekLast()
+	if pq.allDataInCache || (hasLast && bytes.Compare(data, last) < 0) {
+		pq.cache.Push(data)
+
+		// If pushing the item exceeded the cache capacity, evict items until we're back under the limit
+		for pq.cache.IsFull() && !pq.cache.IsEmpty() {
+			pq.cache.PopLast()
+			pq.allDataInCache = false // evicted item is now only in the DB
+		}
 	}
 
 	pq.db.Put(data, nil) // write-through cache to db
@@ -187,16 +194,18 @@ func (pq *KeyGroupPriorityQueue) loadFromDB() {
 	prefix[2] = 0x01 // Schema byte
 
 	var err error
+	loadedAll := true
 	for entry := range pq.db.ScanPrefix(prefix, &err) {
 		pq.cache.Push(entry.Key())
 		if pq.cache.IsFull() {
+			loadedAll = false // there may be more items that didn't fit
 			break
 		}
 	}
 	if err != nil {
 		panic(err)
 	}
-	pq.allDataInCache = true
+	pq.allDataInCache = loadedAll
 }
 
 var _ ds.QueuePartition[[]byte] = &KeyGroupPriorityQueue{}
